@@ -91,17 +91,35 @@ Qed.
 Example ex_missing : ndirs (parse_fmt (length [37;100;124;37;115]) [37;100;124;37;115]) > len [zarg 7]
   /\ format true [37;100;124;37;115] [zarg 7] = FErr.
 Proof. split; vm_compute; reflexivity. Qed.
-(* a directive in C's defined domain and outside the deviations: "%#o" of 8 *)
+(* a directive in C's defined domain: "%#o" of 8; the formerly deviating "%#x" of 0, "%+x" *)
 Definition sp3 : dspec := mkD false false false true false None None 111.
-Example ex_impl_eq_spec : c_defined sp3 (zarg 8) = true /\ known_dev sp3 (zarg 8) = false
+Example ex_impl_eq_spec : c_defined sp3 (zarg 8) = true
   /\ fmt_dir true sp3 (zarg 8) = Some [48;49;48] /\ fmt_dir true sp3 (zarg 8) = fmt_dir false sp3 (zarg 8).
 Proof.
-  split; [reflexivity|]. split; [reflexivity|]. split; [vm_compute; reflexivity|].
+  split; [reflexivity|]. split; [vm_compute; reflexivity|].
   apply format_impl_eq_spec; reflexivity.
 Qed.
-Example ex_deviations :
-  fmt_dir true sharp_x (zarg 0) = Some [48; 120; 48] /\ fmt_dir false sharp_x (zarg 0) = Some [48].
+Example ex_impl_eq_spec_strong :
+  verb_in (d_verb plus_x) [99; 115] && (f_zero plus_x && negb (f_minus plus_x)) = false
+  /\ fmt_dir true plus_x (zarg 255) = fmt_dir false plus_x (zarg 255)
+  /\ fmt_dir true plus_x (zarg 255) = Some [102; 102].
+Proof.
+  split; [reflexivity|]. split; [apply format_impl_eq_spec_strong; reflexivity | vm_compute; reflexivity].
+Qed.
+Example ex_repaired :
+  fmt_dir true sharp_x (zarg 0) = Some [48] /\ fmt_dir false sharp_x (zarg 0) = Some [48].
 Proof. split; vm_compute; reflexivity. Qed.
+(* "%.3d" of the string "42" (tonumber gives 42) = "042"; of "abc" raises *)
+Example ex_numeric_string :
+  numeric_verb (d_verb (mkD false false false false false None (Some 3) 100)) = true /\
+  format true [37;46;51;100] [AConv [52;50] (Some (NFin false 21 1))] = FOk [48;52;50] /\
+  format true [37;46;51;100] [AConv [97;98;99] None] = FErr /\
+  format true [37;115] [AConv [52;50] (Some (NFin false 21 1))] = FOk [52;50].
+Proof. repeat split; vm_compute; reflexivity. Qed.
+Example ex_numeric_string_thm :
+  run_items true [IDir (plain 100)] [AConv [52;50] (Some (NFin false 21 1))]
+  = run_items true [IDir (plain 100)] [ANum (NFin false 21 1)].
+Proof. apply (format_numeric_string true (plain 100) [52;50] (NFin false 21 1) [] []). reflexivity. Qed.
 (* exact decimal expansion with round-half-even: %.0f of 0.5, 1.5, 2.5; %.3f of 2.0005; %e of 5e-324 *)
 Example ex_float :
   fmt_dir false (mkD false false false false false None (Some 0) 102) (ANum (NFin false 1 (-1))) = Some [48] /\
